@@ -60,8 +60,15 @@ def history(rng, maxlen=40):
                 lines.append("init %d %s/1 %s" % (p, ",".join(map(str, nd)), ints(rng, nn + rng.choice([1, 2, -1]) if nn + 1 > 0 else 1)))
             elif k < 0.8:
                 lines.append("init %d %s/2 %s" % (p, ",".join(map(str, nd)), ints(rng, 2 * nn)))
-            elif k < 0.9:
+            elif k < 0.86:
                 lines.append("initc %d %s/%d %d" % (p, ",".join(map(str, nd)), rng.choice([1, 1, 2, 3]), rng.randint(-2, 2)))
+            elif k < 0.96:
+                # an Initializer that rejects the shape itself, after Parameter::init has built the new tensors
+                # (Identity: non-square; Xavier: depth 3; Conv2D: depth 5) — or accepts it (square / matrix / depth 4)
+                which = rng.choice(["initi", "initi", "initx", "initn", "initv"])
+                sh = {"initi": ["2,3", "3,1", "2", "2,2,2", "2,2", "3,3"], "initx": ["2,2,2", "1,2,3", "2,3", "3"],
+                      "initn": ["2,2,2", "2,1,2", "2,3"], "initv": ["1,1,1,1,2", "2,1,1,1,2", "1,2,1,2"]}[which]
+                lines.append("%s %d %s/1" % (which, p, rng.choice(sh)))
             else:
                 lines.append("init %d 2,0/1 -" % p)
         elif r < 0.65:
